@@ -9,6 +9,16 @@ LeapPosAcc == (tick >= 1) =>
 LeapRate == (tick >= 1) => LP!RateAtL(cmd.r, cmd.a, cmd.j, K) = LP!FromInt(rate)
 LeapClear == LP!Acc0N(cmd.r, cmd.a, cmd.j, cmd.c) = acc0
 LeapDomain == (tick >= 1) => LP!DomainOK(cmd.r, cmd.a, cmd.j, K)       \* every stepped state is in the leap's domain
+\* ... and conversely: the three domain guards of the judge (C01/C03/C17: |rate| <= MOD-1; C02: the signed range itself; C17's corollary:
+\* rates up to 16*MOD) accept a move of T ticks exactly when every tick 1..T satisfies the bound (brute force over the ticks)
+RateN(k) == LP!ToInt(LP!RateAtL(cmd.r, cmd.a, cmd.j, LP!FromInt(k)))
+AccelN(k) == cmd.a + cmd.j * k
+BruteR(T, lo, hi) == \A k \in 1..T : lo <= RateN(k) /\ RateN(k) <= hi
+BruteA(T, lo) == \A k \in 1..T : lo <= AccelN(k) /\ AccelN(k) <= Mm1
+DomainExact == (tick = 1) => \A T \in 1..MaxT : LET KT == LP!FromInt(T) IN
+  /\ LP!DomainOK(cmd.r, cmd.a, cmd.j, KT) <=> (BruteR(T, 0 - Mm1, Mm1) /\ BruteA(T, 0 - Mm1))
+  /\ LP!DomainOK32(cmd.r, cmd.a, cmd.j, KT) <=> (BruteR(T, (0 - Mm1) - 1, Mm1) /\ BruteA(T, (0 - Mm1) - 1))
+  /\ LP!DomainPeak(cmd.r, cmd.a, cmd.j, KT) <=> (BruteR(T, 0 - 16 * (Mm1 + 1), 16 * (Mm1 + 1)) /\ BruteA(T, 0 - Mm1))
 LeapPeak == (tick >= 1) => LP!PeakL(cmd.r, cmd.a, cmd.j, K) = LP!FromInt(peak)
 LeapCnt == (tick >= 1 /\ cmd.j = 0) => LP!CntAtL(cmd.r, cmd.a, cmd.c, K) = LP!FromInt(cnt)
 LeapFirstTick == (tick >= 1 /\ cmd.j = 0 /\ cnt >= 1) =>
